@@ -22,7 +22,7 @@ ustr gen_string(Rng &r, const GenCfg &c) {
     ustr s;
     if (c.boundary_bias && r.chance(1, 3)) {
         // writer decision boundaries: line lengths around 2048, semicolon runs, trailing backslashes / blanks, text delimiters
-        unsigned shape = (unsigned) r.below(17);
+        unsigned shape = (unsigned) r.below(20);
         size_t n = 2036 + r.below(24);
         auto fill = [&](size_t k, bool spaces) { for (size_t i = 0; i < k; ++i) s += (spaces && r.chance(1, 9)) ? u' ' : (char16_t) ('a' + (i % 26)); };
         switch (shape) {
@@ -43,6 +43,10 @@ ustr gen_string(Rng &r, const GenCfg &c) {
             case 13: s += U("it's a \"path\\"); if (r.chance(1, 3)) s += U("  "); break;
             case 14: fill(n + 20, true); s += U("\\"); if (r.chance(1, 3)) s += U(" "); break;
             case 15: fill(r.below(12), true); s += U("\n;"); fill(r.below(12), true); s += U("\\"); break;
+            // a leading semicolon in a value that has to be folded
+            case 16: s += u';'; fill(n + 20, true); break;
+            case 17: s += u';'; fill(r.below(12), true); s += U("\\"); if (r.chance(1, 2)) s += U(" "); s += U("\nmore"); break;
+            case 18: s += U(";x\n"); fill(n + 20, true); break;
             default: fill(r.below(12), false); s += U("\n"); fill(n + 20, true); s += U("\n"); fill(r.below(8), false); s += U("\\"); if (r.chance(1, 2)) s += U("\t"); break;
         }
         if (c.cif11_chars_only) for (auto &ch : s) if (ch > 0x7e) ch = u'z';
